@@ -31,7 +31,7 @@ func genCase(t *rapid.T) Case {
 	if buf == 0 {
 		buf = 1024
 	}
-	if rapid.IntRange(0, 120).Draw(t, "hugeBuffer?") == 0 {
+	if rapid.IntRange(0, 400).Draw(t, "hugeBuffer?") == 0 {
 		// a buffer far above the default and one sysex far above 1024 bytes that fits into it
 		c.BufSize = rapid.SampledFrom([]uint32{1<<20 + 7, 1 << 21, 1<<24 + 9, 1 << 25}).Draw(t, "hugeBufSize")
 		c.Items = live.Items(t, 1024, 8)
@@ -183,7 +183,7 @@ func dedup(in []string) []string {
 }
 
 var streams = ev.NewCheck("C04", "streams",
-	"rapid: 1..40 messages, one stream in 25 has 300..1500 (channel voice of all kinds and data ranges, MTC, SPP, song select, tune request, sysex of total length 2..buffer size with buffer size in {1,2,3,4,5,8,16,33,64,1024 default}, real-time F8 FA FB FC FE FF), serialised by a reference sender with chosen running-status elisions and real-time bytes inserted at arbitrary byte positions (also inside sysex), cut into Send/EachMessage calls (one call, one byte per call, random pieces incl. empty) with deltas 0..5000 ms; oracle = expected sequence by construction cross-checked with the reference receiver; observed at drivers.Reader (exact time stamps) and at midi.ListenTo on a testdrv loopback with all options on (time stamps relative to a sync message), in one case of four as the second listening on a port that was listened to before with other options and another buffer size; non-trivial = a real status elision, a real-time byte strictly inside a message, or a chunk boundary strictly inside a message; distinct by case hash",
+	"rapid: 1..40 messages, one stream in 60 has 300..1500 (channel voice of all kinds and data ranges, MTC, SPP, song select, tune request, sysex of total length 2..buffer size with buffer size in {1,2,3,4,5,8,16,33,64,1024 default}, real-time F8 FA FB FC FE FF), serialised by a reference sender with chosen running-status elisions and real-time bytes inserted at arbitrary byte positions (also inside sysex), cut into Send/EachMessage calls (one call, one byte per call, random pieces incl. empty) with deltas 0..5000 ms; oracle = expected sequence by construction cross-checked with the reference receiver; observed at drivers.Reader (exact time stamps) and at midi.ListenTo on a testdrv loopback with all options on (time stamps relative to a sync message), in one case of four as the second listening on a port that was listened to before with other options and another buffer size; non-trivial = a real status elision, a real-time byte strictly inside a message, or a chunk boundary strictly inside a message; distinct by case hash",
 	genCase, run)
 
 func TestPropStreams(t *testing.T) { streams.Rapid(t, 4000, 50000) }
